@@ -142,7 +142,7 @@ func main() {
 			units = append(units, unit{"evaluate", i, 3})
 		}
 	}
-	units = append(units, unit{"render", 0, 2}, unit{"render", 1, 2}, unit{"dcache3", 0, 2}, unit{"dcache2", 0, 2})
+	units = append(units, unit{"render", 0, 2}, unit{"render", 1, 2}, unit{"render", 2, 2}, unit{"render", 3, 3}, unit{"dcache3", 0, 2}, unit{"dcache2", 0, 2})
 	chunk := 24
 	nch := (len(units) + chunk - 1) / chunk
 	m := c.RunSharded(nch, func(job int, j *vlib.Job) {
@@ -231,7 +231,30 @@ func main() {
 					}
 				}
 			case "render":
-				name = []string{"uniform render of Extrude3D(Cache2D(Circle2D))", "uniform render of Extrude3D(Circle2D)"}[u.sub]
+				name = []string{"uniform render of Extrude3D(Cache2D(Circle2D))", "uniform render of Extrude3D(Circle2D)", "uniform render of Sphere3D, layers of exactly 100 samples (one full batch)", "uniform render of Sphere3D, layers of exactly 100 samples, 3 workers"}[u.sub]
+				if u.sub >= 2 {
+					// the fan-out must hand back the values of sequential evaluation: every vertex of the mesh lies
+					// within a cell of the surface and the mesh is not empty (a layer handed back before its
+					// workers finished holds zeros or stale values)
+					body = func() {
+						mismatch = ""
+						vsync.SetNumCPU(u.threads)
+						sp, _ := sdf.Sphere3D(1)
+						ts := render.ToTriangles(sp, render.NewMarchingCubesUniform(8))
+						if len(ts) == 0 {
+							mismatch = "the parallel render returned no triangles for a sphere"
+						}
+						h := 2.0 / 8 * 1.05
+						for _, t := range ts {
+							for _, p := range t {
+								if d := math.Abs(sp.Evaluate(p)); d > h {
+									mismatch = fmt.Sprintf("vertex %v of the parallel render is %g from the surface (cell %g): values differ from sequential evaluation", p, d, h)
+								}
+							}
+						}
+					}
+					break
+				}
 				body = func() {
 					mismatch = ""
 					vsync.SetNumCPU(2)
@@ -286,6 +309,9 @@ func main() {
 			bound := 0
 			if u.kind != "evaluate" {
 				bound = 1
+			}
+			if u.kind == "render" && u.sub >= 2 && !thorough {
+				bound = 0 // 10 layers x 100 evaluations per execution: the quick tier takes the forced switches only
 			}
 			var writes, reads, lockOps int
 			st := vsync.ExploreAll(vsync.Options{Bound: bound, Stop: c.Expired, MaxExec: 2000, Prune: true, SymmetricSpawn: []string{"render.evalRoutines"}}, body, func(x *vsync.Execution, prefix []int) bool {
